@@ -1,3 +1,3 @@
 """Hook commits in /repo and reasons for unclaimed properties (per-property texts live in props.d/)."""
-HOOK_COMMITS = ["4e6fe67", "2b7356b", "9e7c37a"]
+HOOK_COMMITS = ["4e6fe67", "2b7356b", "9e7c37a","a482f71"]
 NOT_YET = {}
